@@ -687,6 +687,27 @@ func (cs *Contracts) parseFile(path, pkg string) error {
 				return fmt.Errorf("%s:%d: expected 'nouse <func>: after \"callee\" argument <i>'", path, lineNo)
 			}
 			cs.Fields = append(cs.Fields, &FieldDecl{Type: strings.TrimSpace(nm[1]), Field: nm[2], Pkg: pkg, Kind: "nouse", Arg: nm[3], Props: append([]string(nil), props...)})
+		case "cellfresh":
+			// cellfresh <func>: after "<callee>" argument <i>   the i-th argument is the address of a
+			// local variable that is not written again (in the same incarnation) once the call was made
+			if err := flush(); err != nil {
+				return err
+			}
+			cm := regexp.MustCompile(`^(.+?):\s*after\s+"([^"]+)"\s+argument\s+(\d+)$`).FindStringSubmatch(rest)
+			if cm == nil {
+				return fmt.Errorf("%s:%d: expected 'cellfresh <func>: after \"callee\" argument <i>'", path, lineNo)
+			}
+			cs.Fields = append(cs.Fields, &FieldDecl{Type: strings.TrimSpace(cm[1]), Field: cm[2], Pkg: pkg, Kind: "cellfresh", Arg: cm[3], Props: append([]string(nil), props...)})
+		case "methods":
+			// methods <T>: M1 M2 ...   the method set of *T is exactly the listed methods (all under contract)
+			if err := flush(); err != nil {
+				return err
+			}
+			mi := strings.Index(rest, ":")
+			if mi < 0 {
+				return fmt.Errorf("%s:%d: expected 'methods T: M1 M2 ...'", path, lineNo)
+			}
+			cs.Fields = append(cs.Fields, &FieldDecl{Type: strings.TrimSpace(rest[:mi]), Field: "*", Pkg: pkg, Kind: "methods", Arg: strings.TrimSpace(rest[mi+1:]), Props: append([]string(nil), props...)})
 		case "order":
 			// order <func>: "<A>" dominates "<B>"   every call of B in func is dominated by a call of A
 			if err := flush(); err != nil {
